@@ -272,8 +272,25 @@ func c01SingleEdits() []c01Case {
 	single("unique-column-nullability", "`id` integer NOT NULL, `u` text NULL, PRIMARY KEY (`id`), UNIQUE (`u`)", "`id` integer NOT NULL, `u` text NOT NULL, PRIMARY KEY (`id`), UNIQUE (`u`)")
 	single("fk-column-nullability", "`id` integer NOT NULL, `p` integer NULL, PRIMARY KEY (`id`), FOREIGN KEY (`p`) REFERENCES `parent` (`id`)", "`id` integer NOT NULL, `p` integer NOT NULL, PRIMARY KEY (`id`), FOREIGN KEY (`p`) REFERENCES `parent` (`id`)")
 	single("indexed-column-default", "`id` integer NOT NULL, `u` text NULL DEFAULT 'a', PRIMARY KEY (`id`), UNIQUE (`u`)", "`id` integer NOT NULL, `u` text NULL DEFAULT 'b', PRIMARY KEY (`id`), UNIQUE (`u`)")
+	// a foreign key re-pointed between its own table and another one whose key column has the same name
+	single("fk-repointed-self-to-other", "`id` integer NOT NULL, `p` integer NULL, PRIMARY KEY (`id`), CONSTRAINT `fk` FOREIGN KEY (`p`) REFERENCES `t` (`id`)", "`id` integer NOT NULL, `p` integer NULL, PRIMARY KEY (`id`), CONSTRAINT `fk` FOREIGN KEY (`p`) REFERENCES `parent` (`id`)")
+	single("fk-repointed-other-to-self", "`id` integer NOT NULL, `p` integer NULL, PRIMARY KEY (`id`), CONSTRAINT `fk` FOREIGN KEY (`p`) REFERENCES `parent` (`id`)", "`id` integer NOT NULL, `p` integer NULL, PRIMARY KEY (`id`), CONSTRAINT `fk` FOREIGN KEY (`p`) REFERENCES `t` (`id`)")
+	single("unnamed-fk-repointed-self-to-other", "`id` integer NOT NULL, `p` integer NULL, PRIMARY KEY (`id`), FOREIGN KEY (`p`) REFERENCES `t` (`id`)", "`id` integer NOT NULL, `p` integer NULL, PRIMARY KEY (`id`), FOREIGN KEY (`p`) REFERENCES `parent` (`id`)")
 	single("strict-added", "`id` integer NOT NULL, `a` text NULL, PRIMARY KEY (`id`)", "`id` integer NOT NULL, `a` text NULL, PRIMARY KEY (`id`)) STRICT; --")
 	single("without-rowid-added", "`id` integer NOT NULL, `a` text NULL, PRIMARY KEY (`id`)", "`id` integer NOT NULL, `a` text NULL, PRIMARY KEY (`id`)) WITHOUT ROWID; --")
+	// indexes: only the predicate / uniqueness / direction of an index changes
+	idx := func(kind, from, to string) {
+		base := "CREATE TABLE `t` (`id` integer NOT NULL, `a` integer NULL, `b` text NULL, PRIMARY KEY (`id`))"
+		out = append(out, c01Case{Current: []string{parent, base, from}, Desired: []string{parent, base, to}, Edits: []*sqEdit{{Kind: "single:" + kind, Table: "t"}}, FK: true})
+	}
+	idx("partial-index-becomes-full", "CREATE INDEX `i` ON `t` (`a`) WHERE a > 0", "CREATE INDEX `i` ON `t` (`a`)")
+	idx("unique-partial-index-becomes-full", "CREATE UNIQUE INDEX `i` ON `t` (`a`) WHERE a > 0", "CREATE UNIQUE INDEX `i` ON `t` (`a`)")
+	idx("full-index-becomes-partial", "CREATE INDEX `i` ON `t` (`a`)", "CREATE INDEX `i` ON `t` (`a`) WHERE a > 0")
+	idx("index-predicate-changed", "CREATE INDEX `i` ON `t` (`a`) WHERE a > 0", "CREATE INDEX `i` ON `t` (`a`) WHERE a > 1")
+	idx("index-becomes-unique", "CREATE INDEX `i` ON `t` (`a`)", "CREATE UNIQUE INDEX `i` ON `t` (`a`)")
+	idx("index-direction-changed", "CREATE INDEX `i` ON `t` (`a`, `b`)", "CREATE INDEX `i` ON `t` (`a` DESC, `b`)")
+	idx("index-column-order-changed", "CREATE INDEX `i` ON `t` (`a`, `b`)", "CREATE INDEX `i` ON `t` (`b`, `a`)")
+	idx("index-expression-changed", "CREATE INDEX `i` ON `t` (abs(a))", "CREATE INDEX `i` ON `t` (abs(a) + 1)")
 	return out
 }
 
